@@ -641,6 +641,10 @@ pub fn generate(seed: u64, thorough: bool) -> (GroupWorld, Vec<GExec>) {
     (world, execs)
 }
 
+pub fn gen_exec_pub(r: &mut Rng, world: &GroupWorld, i: u64) -> GExec {
+    gen_exec(r, world, i)
+}
+
 fn gen_exec(r: &mut Rng, world: &GroupWorld, i: u64) -> GExec {
     // swarm: each execution enables a random subset of perturbation kinds
     let use_partition = r.chance(0.6);
